@@ -65,6 +65,7 @@ class Ob:
     notes: str = ''
     functions_under_contract: Tuple[str, ...] = ()
     abstract: Tuple[str, ...] = ()      # callees replaced by the purity contract (regex on mangled names)
+    defs: Tuple[str, ...] = ()          # extra -D options for goto-cc (case splits)
 
 
 @dataclass
@@ -172,7 +173,7 @@ def harness_text(ob, closure_file, body):
     L = ['#define VF_CBMC 1', '#include "spec_lib.h"', '_Bool ll2c_ub_on = 1;',
          '#define UB_ON() (ll2c_ub_on = 1)', '#define UB_OFF() (ll2c_ub_on = 0)',
          '#include "%s"' % closure_file]
-    for w in ob.wrappers:
+    for w in (ob.wrappers if ob.kind == 'H' else []):
         ps = ', '.join('%s %s' % (c_ty(t), n) for t, n in w.params)
         args = ', '.join(n for t, n in w.params)
         if w.ret == 'void':
@@ -220,6 +221,37 @@ def prepare_group(args):
                 dd['replace_c'] = ['f_' + ll2c.san(g) for g in dd.get('replace', [])]
                 out[ob.id] = ('ok', {'dir': d, 'functions': info['functions'], 'stubs': info['stubs'], 'libm_models': info['libm_models'],
                                      'n_ub_asserts': len(info['assert_sites']), 'abstracted': [], 'dfcc': dd})
+                continue
+            if ob.kind == 'L':
+                # function contract + loop contract with verification conditions generated by ll2c itself (assert/assume form)
+                dd = ob.dfcc
+                cs = {k: dict(v, mode='vc') for k, v in dd['contracts'].items()}
+                ctext, info = ll2c.emit_closure(mod, [dd['target']], srcroot=REPO.rstrip('/') + '/', contracts=cs, stubs=set(dd.get('replace', [])))
+                missing = [g for g in dd.get('replace', []) if g not in info['functions']]
+                if missing:
+                    out[ob.id] = ('infra', 'callee to be replaced by its contract is not called any more: %r' % missing); continue
+                if info['global_stores']:
+                    out[ob.id] = ('infra', 'frame: closure stores to globals %r' % (info['global_stores'][:3],)); continue
+                # assertions turned into stated assumptions (each must fire exactly, otherwise the obligation is not generated)
+                bad = None
+                for pat in dd.get('assume', []):
+                    lines = ctext.split('\n'); hit = 0
+                    for i, ln in enumerate(lines):
+                        if '__CPROVER_assert(' in ln and pat in ln:
+                            lines[i] = ln.replace('if (LL2C_CHECK_WRAP) __CPROVER_assert(', '__CPROVER_assume(').replace('__CPROVER_assert(', '__CPROVER_assume(')
+                            lines[i] = re.sub(r', "[^"]*"\);', ');   /* ASSUMED, listed in the evidence */', lines[i])
+                            hit += 1
+                    if hit != 1: bad = 'assumed assertion %r matched %d sites (expected 1)' % (pat, hit)
+                    ctext = '\n'.join(lines)
+                if bad:
+                    out[ob.id] = ('infra', bad); continue
+                ctext = 'extern _Bool ll2c_ub_on;\n' + ctext.replace('__CPROVER_assert(', '__CPROVER_assert(!ll2c_ub_on || ')
+                d = os.path.join(workdir, san(ob.id)); os.makedirs(d, exist_ok=True)
+                open(os.path.join(d, 'closure.c'), 'w').write(ctext)
+                body = ob.body.replace('TARGET', 'f_' + ll2c.san(dd['target']))
+                open(os.path.join(d, 'h.c'), 'w').write(harness_text(ob, 'closure.c', body))
+                out[ob.id] = ('ok', {'dir': d, 'functions': info['functions'], 'stubs': info['stubs'], 'libm_models': info['libm_models'],
+                                     'n_ub_asserts': len(info['assert_sites']), 'abstracted': info['abstracted']})
                 continue
             roots = [w.name for w in ob.wrappers]
             ctext, info = ll2c.emit_closure(mod, roots, srcroot=REPO.rstrip('/') + '/', abstract=ob.abstract)
@@ -322,9 +354,45 @@ def classify(results, names):
     return failed, canary, inputs, len(results)
 
 
-def intblast_run(d, gb_nc, ob, timeout, cancel=None):
-    smt = os.path.join(d, os.path.basename(gb_nc) + '.smt2')
-    cmd = ['cbmc', gb_nc] + cbmc_base(ob) + ['--smt2', '--outfile', smt]
+def list_props(d, gb, ob):
+    rc, out, err, dt = run(['cbmc', gb] + cbmc_base(ob) + ['--show-properties', '--json-ui'], timeout=120, cwd=d)
+    try:
+        data = json.loads(out)
+    except Exception:
+        return []
+    names = []
+    for e in data:
+        if isinstance(e, dict) and 'properties' in e:
+            names += [(p['name'], p.get('description', '')) for p in e['properties']]
+    return names
+
+
+def intblast_split(d, gb_nc, ob, timeout, cancel=None):
+    """per-property fallback of the SMT route: every property is exported and decided on its own (cvc5 int-blast raced with z3)"""
+    props = [p for p in list_props(d, gb_nc, ob) if p[1] != 'CANARY']
+    if not props: return 'error', 'no properties', 0.0
+    t0 = time.time()
+    res = {}
+
+    def one(pn):
+        if cancel is not None and cancel.is_set(): return pn, 'timeout', None
+        st, vals, dt = intblast_run(d, gb_nc, ob, max(5, timeout - (time.time() - t0)), cancel=cancel, prop=pn)
+        return pn, st, vals
+    with cf.ThreadPoolExecutor(4) as ex:
+        for pn, st, vals in ex.map(one, [p[0] for p in props]):
+            res[pn] = (st, vals)
+    bad = {k: v for k, v in res.items() if not (v[0].startswith('unsat') or v[0] == 'trivial')}
+    if not bad:
+        return 'unsat:per-property(cvc5-intblast|z3-bv)', None, time.time() - t0
+    for k, (st, vals) in bad.items():
+        if st.startswith('sat'):
+            return st, vals, time.time() - t0
+    return 'timeout', None, time.time() - t0
+
+
+def intblast_run(d, gb_nc, ob, timeout, cancel=None, prop=None):
+    smt = os.path.join(d, os.path.basename(gb_nc) + (('.' + san(prop)) if prop else '') + '.smt2')
+    cmd = ['cbmc', gb_nc] + cbmc_base(ob) + (['--property', prop] if prop else []) + ['--smt2', '--outfile', smt]
     rc, out, err, dt = run(cmd, timeout=timeout, cwd=d, cancel=cancel)
     if rc is None or not os.path.exists(smt):
         return 'timeout' if rc is None else 'error', None, dt
@@ -334,8 +402,12 @@ def intblast_run(d, gb_nc, ob, timeout, cancel=None):
     # keep everything up to check-sat, then ask for the harness inputs
     i = txt.find('(check-sat)')
     if i < 0:
-        # no properties at all -> cbmc writes nothing to solve
-        return 'error', 'no check-sat in smt2', dt
+        # the property was discharged by CBMC's simplifier: nothing left to solve
+        try:
+            os.remove(smt)
+        except OSError:
+            pass
+        return ('trivial' if prop else 'error'), 'no check-sat in smt2', dt
     head = txt[:i]
     gv = []
     for t, n in ob.inputs:
@@ -425,7 +497,7 @@ def decide(d, ob, src='h.c', budget=None, log=None):
     import threading
     budget = budget or ob.budget
     names = {n for t, n in ob.inputs}
-    defs = ['LL2C_CHECK_WRAP=1'] if ob.wrap else []
+    defs = (['LL2C_CHECK_WRAP=1'] if ob.wrap else []) + list(ob.defs)
     stem = os.path.splitext(src)[0]
     gb = stem + '.gb'
     goto_cc(d, src, gb, defs)
@@ -447,9 +519,14 @@ def decide(d, ob, src='h.c', budget=None, log=None):
         return None
 
     def strat_ib():
-        st, vals, dt = intblast_run(d, gbn, ob, budget, cancel=cancel)
+        if ob.kind == 'L':
+            st, vals, dt = 'timeout', None, 0.0       # loop/recursion VCs: one formula per verification condition from the start
+        else:
+            st, vals, dt = intblast_run(d, gbn, ob, min(budget, max(30, budget // 4)), cancel=cancel)
+        if st == 'timeout' and not cancel.is_set():
+            st, vals, dt = intblast_split(d, gbn, ob, budget - dt, cancel=cancel)
         if st.startswith('unsat'):
-            ibname = st.split(':')[1]
+            ibname = st.split(':', 1)[1]
             can, n = canary_prop(d, gb, ob)
             canary = None
             if can:
